@@ -366,6 +366,10 @@ func (b *Buffer) grow(n int) {
 	} else {
 		newLen = cap(b.core) * 2
 	}
+	// 翻倍后依然放不下时（比如一次写入很长的url参数），直接扩到需要的大小
+	if newLen-b.writePos < n {
+		newLen = b.writePos + n
+	}
 	buf := make([]byte, newLen)
 	Log.Debugf("Buffer::grow. need=%d, old len=%d, cap=%d, new len=%d", n, b.Len(), cap(b.core), newLen)
 	copy(buf, b.core[b.readPos:b.writePos])
